@@ -22,6 +22,27 @@ def seq_allocators(P):
     return out
 
 
+def _guarded_increment(P, f, st, fp):
+    """the store writes (load of the same field) + 1 on a path that excludes old == 255 (the wrap written out in place)"""
+    vi = f.resolve(rules.strip_casts(f, st["val"]))
+    if vi is None or vi.op != "add" or rules.const_of(f, vi["b"]) != 1:
+        return False
+    src = f.resolve(rules.resolve_local(f, rules.strip_casts(f, vi["a"])))
+    if src is None or src.op != "load" or rules.field_path_of_ptr(P, f, src["ptr"]) != fp:
+        return False
+    for (br, taken) in rules.conditions_at(f, st):
+        c = f.resolve(br["cond"])
+        if c is None or c.op != "icmp":
+            continue
+        cv = rules.const_of(f, c["b"])
+        ld = f.resolve(rules.resolve_local(f, rules.strip_casts(f, c["a"])))
+        if ld is not None and ld.op == "load" and rules.field_path_of_ptr(P, f, ld["ptr"]) == fp and cv is not None:
+            if (c["pred"] == "eq" and not taken and cv == 255) or (c["pred"] == "ne" and taken and cv == 255) or \
+               (c["pred"] in ("ult", "slt") and taken and cv <= 255):
+                return True
+    return False
+
+
 def wire_append_fns(P):
     wire = set()
     for f in P.repo_functions():
@@ -174,6 +195,8 @@ def run(chk, w):
                             chk.ok("C05-INV", 1, {"store": i.loc(), "value": v & 0xff})
                         else:
                             chk.violation("C05-INV", f.name, fp, i.loc(), "constant %d stored to the sequence counter (0 is reserved for 'numbering off')" % v)
+                    elif fp == SEND_FIELD and _guarded_increment(P, f, i, fp):
+                        chk.ok("C05-INV", 1, {"store": i.loc(), "value": "old+1 under old != 255"})
                     elif fp == SEND_FIELD:
                         chk.violation("C05-INV", f.name, fp, i.loc(), "non-constant value stored directly to the send counter; cannot be shown to stay in [1,255]")
                     else:
